@@ -314,6 +314,15 @@ def conflictHitsMember (s : List Pkg) : Bool :=
         acceptsOne [] con.version con.dep [] con.pin none q
     | _ => false
 
+/-- F09o: two different members provide one name, at least one of them with a version.  Picking either of them as a
+dependency or in the first loop of `GetPackagesWithDependencies` disqualifies the other (`disqualifyConflicts`); the
+second loop re-picks a world entry WITHOUT `disqualifyConflicts`, so both can end up in one resolution (when the
+candidates of the first loop were disqualified in between).  In the lock every member is picked in the first loop. -/
+def twoMembersProvideVersioned (s : List Pkg) : Bool :=
+  s.any fun m1 => s.any fun m2 => decide (m1 ≠ m2) &&
+    m1.provides.any fun pr1 => m2.provides.any fun pr2 =>
+      provName pr1 = provName pr2 && !((parseConstraint pr1).version.isEmpty && (parseConstraint pr2).version.isEmpty)
+
 /-- first class that applies, in a fixed order; `unlisted` when none does -/
 def relockClass (u : Universe) (w : List Text) (s : List Pkg) : String :=
   if pinLost w s then "F09a"
@@ -326,6 +335,7 @@ def relockClass (u : Universe) (w : List Text) (s : List Pkg) : String :=
   else if anyOpJunkVersion s then "F09l"
   else if selfConflictingProvides s then "F09m"
   else if conflictHitsMember s then "F09n"
+  else if twoMembersProvideVersioned s then "F09o"
   else "unlisted"
 
 /-! ### byte ranges recorded by `LockCmd` (expressions regenerated from the source, see Generated/Lock.lean) -/
